@@ -125,20 +125,24 @@ func newPopulation() *Population {
 }
 
 func (p *Population) NextNodeId() int {
+	verifYield("NextNodeId")
 	return int(atomic.AddInt32(&p.nextNodeId, 1))
 }
 
 func (p *Population) NextInnovationNumber() int64 {
+	verifYield("NextInnovationNumber")
 	return atomic.AddInt64(&p.nextInnovNum, 1)
 }
 
 func (p *Population) StoreInnovation(innovation Innovation) {
+	verifYield("StoreInnovation")
 	p.mutex.Lock()
 	defer p.mutex.Unlock()
 	p.innovations = append(p.innovations, innovation)
 }
 
 func (p *Population) Innovations() []Innovation {
+	verifYield("Innovations")
 	return p.innovations
 }
 
@@ -211,6 +215,7 @@ func (p *Population) checkBestSpeciesAlive(bestSpeciesId int, bestSpeciesReprodu
 // speciate separates given organisms into species of this population by checking compatibilities against a threshold.
 // Any organism that is not compatible with the first organism in any existing species becomes a new species.
 func (p *Population) speciate(ctx context.Context, organisms []*Organism) error {
+	verifObserve("speciate.begin", p, organisms, nil)
 	if len(organisms) == 0 {
 		return errors.New("no organisms to speciate from")
 	}
